@@ -248,6 +248,9 @@ struct Ctx
 	// oracle mismatch: record and leave the case
 	void fail(const std::string& key, const std::string& detail);
 	void check(bool ok, const char* key, const std::string& detail) { if (!ok) fail(key, detail); }
+	// oracle mismatch that is recorded while the case goes on (at most once per key and case)
+	std::vector<std::string> reported;
+	void report(const std::string& key, const std::string& detail);
 	// oracle mismatch after which the process cannot go on (e.g. a library thread is spinning): record, mark the case done, leave the process
 	void fail_exit(const std::string& key, const std::string& detail);
 };
@@ -489,6 +492,13 @@ public:
 		return 0;
 	}
 };
+
+inline void Ctx::report(const std::string& key, const std::string& detail)
+{
+	for (size_t i = 0; i < reported.size(); i++) if (reported[i] == key) return;
+	reported.push_back(key);
+	R->write_anom("oracle", key, detail, idx, curdesc());
+}
 
 inline void Ctx::fail_exit(const std::string& key, const std::string& detail)
 {
